@@ -1,0 +1,11 @@
+//go:build verif
+
+package deps
+
+import (
+	"mltwist/internal/parser"
+	"mltwist/pkg/expr"
+)
+
+// VerifJumps exposes jumps to the verification harness.
+func VerifJumps(ins parser.Instruction) []expr.Expr { return jumps(ins) }
